@@ -25,6 +25,13 @@ def apply_edit(b, edit):
         m = pep.add_psd_matrix([[(x - x0) ** 2 + 1, t], [t, 1]])
         b.held["t_edit"] = t
         b.held["lmi_edit"] = m
+    elif edit == "tsample":      # LinearOperator: one more sample of the adjoint (only the transpose's list grows)
+        y1 = pep.set_initial_point()
+        pep.add_constraint(y1 ** 2 <= 1)
+        b.held["ty1"] = b.f.T.gradient(y1)
+        m = b.held["m1"] / 2 + b.held["ty1"] ** 2 / 4
+        pep.set_performance_metric(m)
+        b.held["m_tsample"] = m
     elif edit == "block":        # one more point is decomposed by the partition after a solve
         b.held["blk_d"] = b.part.get_block(b.held["d"], 0)
     elif edit == "infeasible":   # makes the model infeasible
@@ -60,6 +67,19 @@ def postleaf_objects(b):
         except Exception as e:
             out.append(dict(name=name, out="raises:" + type(e).__name__))
     return out
+
+
+def lmishape(prog):
+    """how the model's LMIs that are not symmetric as written enter (finding F7 is about asymmetric roles)"""
+    if prog["cls"] in (4, 6, 7, 8):
+        return "class-lmi"
+    if "N2" in prog.get("lmis", []):
+        if prog.get("lmimetric") and prog["lmis"][0] == "N2":
+            return "user-lmi-symmetric-roles" if prog.get("metrics", 1) >= 2 else "user-lmi-asymmetric-roles"
+        return "user-lmi-slack"
+    if prog["cls"] in (4, 6, 7, 8):
+        return "class-lmi"
+    return "none"
 
 
 def run(item):
@@ -111,6 +131,7 @@ def run(item):
                 out["note"] = "raises:" + crash
                 break
             obs["crash"] = crash
+            obs["lmishape"] = lmishape(prog)
             obs["postleaf"] = []
             obs["opts"] = dict(wrapper=kw["wrapper"], mode=kw["return_primal_or_dual"], heur=heur,
                                tol=pepsolve.fx(opts.get("tol", 1e-4)), solver=kw["solver"], verbose=kw["verbose"])
@@ -132,6 +153,7 @@ def run(item):
         obs["opts"] = dict(wrapper=kw["wrapper"], mode=kw["return_primal_or_dual"], heur=heur,
                            tol=pepsolve.fx(opts.get("tol", 1e-4)), solver=kw["solver"], verbose=kw["verbose"])
         obs["crash"] = ""
+        obs["lmishape"] = lmishape(prog)
         obs["edit"] = opts.get("edit", "none") or "none"
         obs["phases"] = pepsolve.phases(pepsolve.LOG)
         w = b.pep.wrapper
